@@ -1,5 +1,4 @@
--- imports RouterLookupLib.lean (tree + matcher model of RouterLookupSound_proof.lean without the proofs)
-import Probe.LookupLib
+import RouterLookupLib
 namespace Tree
 /-- the tree `gen.Router` builds for the single route `GET /a/{x}.json` (checked against the real dump) -/
 def treeK5 : Node :=
